@@ -153,6 +153,10 @@ func threadRun(L *LState) {
 				L.closeUpvalues(0)
 				if L.wrapped {
 					L.Push(lv)
+					// the coroutine is dead and its resumer runs again, as in the plain case below
+					L.G.CurrentThread = parent
+					L.Parent = nil
+					L.kill()
 					parent.Panic(L)
 				} else {
 					L.SetTop(0)
